@@ -7,6 +7,7 @@ import (
 	"go/constant"
 	"go/types"
 	"regexp"
+	"sort"
 	"strings"
 )
 
@@ -19,6 +20,7 @@ type specEnv struct {
 	prev *state
 	prevVars map[string]TV
 	entry *state
+	rec  map[string]bool // records heap keys read (for opaque predicates)
 	pkg  string
 	src  string
 }
@@ -55,6 +57,9 @@ func (env *specEnv) heap(key string) string {
 	if env.st == nil {
 		env.fail("heap access outside a state (axiom?)")
 	}
+	if env.rec != nil {
+		env.rec[key] = true
+	}
 	return env.fc.hget(env.st, key)
 }
 
@@ -77,6 +82,11 @@ func (env *specEnv) eval(e SExpr) TV {
 	case *SIdent:
 		if v, ok := env.vars[x.Name]; ok {
 			return v
+		}
+		if env.fr != nil && env.st != nil {
+			if tv, ok := env.fr.addrLocal(env.st, x.Name); ok {
+				return tv
+			}
 		}
 		if tv, ok := env.pkgConst(x.Name); ok {
 			return tv
@@ -149,8 +159,9 @@ func (env *specEnv) eval(e SExpr) TV {
 				}
 			}
 		}
-		if strings.HasPrefix(b.Sort, "(Array ") {
-			return TV{T: app("select", b.T, i.T), Sort: "Int"}
+		if strings.HasPrefix(b.Sort, "(Array Int ") {
+			es := strings.TrimSuffix(strings.TrimPrefix(b.Sort, "(Array Int "), ")")
+			return TV{T: app("select", b.T, i.T), Sort: es, Typ: u.sortTypes[es]}
 		}
 		env.fail("cannot index %s", b.Sort)
 	case *SSlice:
@@ -202,6 +213,13 @@ func (env *specEnv) eval(e SExpr) TV {
 		q := "exists"
 		if x.Forall {
 			q = "forall"
+		}
+		var pats []string
+		if x.Trig {
+			pats = selectPatterns(body.T, sub.vars, x.Vars)
+		}
+		if len(pats) > 0 {
+			return TV{T: fmt.Sprintf("(%s (%s) (! %s %s))", q, strings.Join(decls, " "), body.T, strings.Join(pats, " ")), Sort: "Bool"}
 		}
 		return TV{T: fmt.Sprintf("(%s (%s) %s)", q, strings.Join(decls, " "), body.T), Sort: "Bool"}
 	}
@@ -444,6 +462,15 @@ func (env *specEnv) evalSel(x *SSel) TV {
 		}
 		cur = TV{T: app(si.fields[idx], cur.T), Sort: si.sorts[idx], Typ: si.typ.Field(idx).Type()}
 	}
+	// representation invariants of heap values read by a contract (unconditional facts)
+	if !strings.Contains(cur.T, "q_") {
+		switch cur.Sort {
+		case "Slice":
+			env.fc.sc.assume(fmt.Sprintf("(and (<= 0 (soff %s)) (<= 0 (sllen %s)) (<= 0 (sref %s)) (=> (= (sref %s) 0) (= (sllen %s) 0)))", cur.T, cur.T, cur.T, cur.T, cur.T))
+		case "Str":
+			env.fc.sc.assume(fmt.Sprintf("(and (<= 0 (slo %s)) (<= (slo %s) (shi %s)))", cur.T, cur.T, cur.T))
+		}
+	}
 	return cur
 }
 
@@ -660,6 +687,23 @@ func (env *specEnv) evalCall(x *SCall) TV {
 			sub.vars[pd.Params[i]] = v
 		}
 		oldsrc := env.src
+		if pd.Opaque && !(env.fc.c != nil && env.fc.c.Reveal[pd.Name]) {
+			// uninterpreted application over the parameters and the heap arrays the body reads
+			keys := e.opaqueKeys(pd, &sub)
+			var argT, argS []string
+			for _, p := range pd.Params {
+				argT = append(argT, sub.vars[p].T)
+				argS = append(argS, sub.vars[p].Sort)
+			}
+			for _, k := range keys {
+				argT = append(argT, env.heap(k))
+				argS = append(argS, heapSort(u, k))
+			}
+			name := "op_" + pd.Name
+			u.global(fmt.Sprintf("(declare-fun %s (%s) Bool)", name, strings.Join(argS, " ")))
+			env.src = oldsrc
+			return TV{T: app(name, argT...), Sort: "Bool"}
+		}
 		r := sub.eval(pd.Body)
 		env.src = oldsrc
 		return r
@@ -691,8 +735,11 @@ func (env *specEnv) evalCall(x *SCall) TV {
 }
 
 func refOf(a TV) string {
-	if a.Sort == "Val" {
+	switch a.Sort {
+	case "Val":
 		return app("vpay", a.T)
+	case "Slice":
+		return app("sref", a.T)
 	}
 	return a.T
 }
@@ -730,4 +777,96 @@ func (e *Engine) declareSpec(sf *SpecFunc, busy map[string]bool) {
 	} else {
 		u.global(fmt.Sprintf("(declare-fun %s (%s) %s)", name, strings.Join(pss, " "), specSort(sf.Result)))
 	}
+}
+
+// opaqueKeys returns (cached) the sorted heap keys the body of an opaque predicate reads.
+var opaqueKeyCache = map[string][]string{}
+
+func (e *Engine) opaqueKeys(pd *PredDef, sub *specEnv) []string {
+	if ks, ok := opaqueKeyCache[pd.Name]; ok {
+		return ks
+	}
+	rec := *sub
+	rec.rec = map[string]bool{}
+	// evaluate on a scratch script so that nothing leaks into the real one
+	save := rec.fc.sc
+	scratch := &Script{n: save.n}
+	rec.fc.sc = scratch
+	h0 := rec.fc.heap0
+	rec.fc.heap0 = map[string]string{}
+	for k, v := range h0 {
+		rec.fc.heap0[k] = v
+	}
+	func() {
+		defer func() {
+			rec.fc.sc = save
+			rec.fc.heap0 = h0
+		}()
+		rec.eval(pd.Body)
+	}()
+	var ks []string
+	for k := range rec.rec {
+		ks = append(ks, k)
+	}
+	sort.Strings(ks)
+	opaqueKeyCache[pd.Name] = ks
+	return ks
+}
+
+// selectPatterns: the innermost select/sat applications that mention the bound variable in their
+// index argument (and nowhere in the array argument) are used as alternative E-matching patterns.
+func selectPatterns(body string, vars map[string]TV, names []string) []string {
+	if len(names) != 1 {
+		return nil
+	}
+	q := vars[names[0]].T
+	seen := map[string]bool{}
+	var pats []string
+	// positions of "(" for every open application enclosing the current position
+	var stack []int
+	for i := 0; i < len(body); i++ {
+		switch body[i] {
+		case '(':
+			stack = append(stack, i)
+		case ')':
+			if len(stack) > 0 {
+				stack = stack[:len(stack)-1]
+			}
+		default:
+			if strings.HasPrefix(body[i:], q) && (i+len(q) >= len(body) || !isSymChar(body[i+len(q)])) && (i == 0 || !isSymChar(body[i-1])) {
+				// nearest enclosing select/sat
+				for k := len(stack) - 1; k >= 0; k-- {
+					st := stack[k]
+					if strings.HasPrefix(body[st:], "(select ") || strings.HasPrefix(body[st:], "(sat ") {
+						// find matching close
+						depth, end := 0, -1
+						for j := st; j < len(body); j++ {
+							if body[j] == '(' {
+								depth++
+							} else if body[j] == ')' {
+								depth--
+								if depth == 0 {
+									end = j + 1
+									break
+								}
+							}
+						}
+						if end > 0 {
+							t := body[st:end]
+							if !seen[t] {
+								seen[t] = true
+								pats = append(pats, ":pattern ("+t+")")
+							}
+						}
+						break
+					}
+				}
+				i += len(q) - 1
+			}
+		}
+	}
+	if len(pats) > 4 {
+		return nil
+	}
+	return pats
 }
